@@ -14,7 +14,7 @@ import struct
 import subprocess
 import tempfile
 
-from vf import build, run, report, zoo, corrupt, c06gen, sanjudge
+from vf import build, run, report, zoo, corrupt, c06gen, c06run, sanjudge
 from vf.pyext4 import image as I
 
 TAG = "C06-v1"
@@ -295,13 +295,9 @@ class Runner:
         if self.only and label != self.only:
             return None
         full = [self.ctx["tools"][binary]] + argv
-        if fsize:
-            full = ["/usr/bin/prlimit", "--fsize=%d" % fsize] + full
-        was_capped = False
-        if capped:
-            res, was_capped = run.run_capped_pipe(full, env=self.ctx["env"], timeout=self.timeout, cap=PIPE_CAP)
-        else:
-            res = run.run(full, env=self.ctx["env"], timeout=self.timeout, cap=1 << 20)
+        res = c06run.execute(full, env=self.ctx["env"], timeout=self.timeout,
+                             stdout_cap=PIPE_CAP if capped else None, fsize=fsize)
+        was_capped = res.capped
         v = sanjudge.judge(binary, res, root=self.ctx["root"])
         err = [l for l in res.err.split(b"\n") if l.strip() and not _BANNER.match(l)]
         noticed = (res.rc not in (0, None)) or (bool(err) and not quiet_stderr)
@@ -601,6 +597,8 @@ def main(tier, seed, replay=None, scale=1.0):
         if replay:
             case = json.load(open(os.path.join(replay, "case.json")))["case"]
             ids = [case["cid"]] if "cid" in case else []
+        elif os.environ.get("C06_IDS"):
+            ids = [int(x) for x in os.environ["C06_IDS"].split(",")]      # development aid
         else:
             total = max(40, int(BUDGET[tier] * scale))
             ids = []
@@ -631,12 +629,14 @@ def main(tier, seed, replay=None, scale=1.0):
                 rep.count("baseline_processes")
                 if p["v"]:
                     # a sanitizer report on an uncorrupted input is a finding all the same
-                    rep.violation("C06 %s %s" % (p["bin"], p["v"]["key_tail"]),
+                    kt = p["v"]["key_tail"] + (" in %s" % p["v"]["hang_func"] if p["v"].get("hang_func") else "")
+                    rep.violation("C06 %s %s" % (p["bin"], kt),
                                   "on the UNCORRUPTED base %s/%s, %s: %s" %
                                   (r["baseline"][0], r["baseline"][1], p["label"], p["v"].get("what", "")),
                                   replay={"stage": "baseline", "base": list(r["baseline"]), "label": p["label"]})
         exit_hist = {}
         seen_keys = {}
+        confirmed_hangs = set()
         for r in results[len(bl_items):]:
             if "error" in r:
                 rep.harness_error("case %s crashed the harness: %s" % (r["cid"], r["error"]))
@@ -674,32 +674,39 @@ def main(tier, seed, replay=None, scale=1.0):
                     rep.count("inconclusive_" + v["key_tail"].replace(" ", "_"))
                     continue
                 if v["verdict"] == "timeout":
-                    # first expiry: run that single process again, alone, with a longer limit
-                    hkey = "C06 %s hang %s" % (p["bin"], _image_class(r))
-                    if hkey in seen_keys:
-                        # this signature was already confirmed by a re-run in this run
-                        seen_keys[hkey] += 1
+                    # first expiry: run that single process again, alone, with a longer limit;
+                    # only a second expiry is a hang.  Signature: where the watchdog's SIGABRT
+                    # interrupted it (innermost frame of the tool), else the image class.
+                    def hang_key(vv):
+                        if vv.get("hang_func"):
+                            return "C06 %s hang in %s" % (p["bin"], vv["hang_func"])
+                        return "C06 %s hang %s" % (p["bin"], _image_class(r))
+                    hkey = hang_key(v)
+                    if hkey in confirmed_hangs:
+                        seen_keys[hkey] = seen_keys.get(hkey, 0) + 1
                         rep.count("watchdog_expiries_of_confirmed_hang_signature")
                         continue
                     rr = _one((ctx, "case", r["cid"], p["label"], WATCHDOG_RERUN))
                     again = [q for q in rr.get("procs", []) if q["label"] == p["label"]]
                     rep.count("watchdog_reruns")
                     if again and again[0]["to"]:
-                        key = hkey
-                        seen_keys[key] = 1
+                        key = hang_key(again[0]["v"])
+                        confirmed_hangs.update([key, hkey])
+                        seen_keys[key] = seen_keys.get(key, 0) + 1
                         rep.violation(key, "%s did not finish within %d s and again not within %d s alone "
-                                           "(cid %d on %s: %s)" % (p["label"], WATCHDOG, WATCHDOG_RERUN,
-                                                                  r["cid"], r["base"], r["descr"]),
-                                      replay={"cid": r["cid"], "label": p["label"], "descr": r["descr"]})
-                    elif again and again[0]["v"] and again[0]["v"]["verdict"] == "violation":
+                                           "(cid %d on %s: %s)\n%s" %
+                                      (p["label"], WATCHDOG, WATCHDOG_RERUN, r["cid"], r["base"], r["descr"],
+                                       again[0]["v"].get("what", "")),
+                                      replay={"cid": r["cid"], "label": p["label"], "descr": r["descr"],
+                                              "case": rr.get("case")})
+                        continue
+                    if again and again[0]["v"] and again[0]["v"]["verdict"] == "violation":
                         v = again[0]["v"]
                         r = dict(r, case=rr.get("case"))
                     else:
                         rep.note_inconclusive("slow: %s cid=%d finished alone in %ss" %
                                               (p["label"], r["cid"], again[0]["wall"] if again else "?"))
                         rep.count("slow_not_hang")
-                        continue
-                    if v["verdict"] != "violation":
                         continue
                 tail = v["key_tail"]
                 if v.get("need_class"):
